@@ -12,7 +12,7 @@ SP = importlib.import_module('pdb2sql.superpose')     # the package re-exports t
 ID = 'C13'
 LEVEL = 'proof'
 CLUSTER = 'G'
-GEN_UNITS = ['data2pdb_line', '_format_atomname', '_format_xyz', 'record_loop', 'rotate', '_format_pdb_linelength']
+GEN_UNITS = ['Consts', 'data2pdb_line', '_format_atomname', '_format_xyz', 'record_loop', 'rotate', '_format_pdb_linelength']
 MODELS = ['Model.SupDb.superpose', 'Model.SupDb.getIntersection', 'Model.superposeSelection']
 RULE = ('target = synthetic two-chain complex (complexgen: 3-12 residues per chain, side chains, optional hydrogens, all numbering styles); mobile = '
         'target jittered / rigidly displaced (random rotation + translation, rounded to the text precision; or lattice rotation + millesimal '
@@ -39,6 +39,7 @@ TRUSTED = ['the published backbone atom names N, CA, C, O are given to the Spec 
 
 BACKBONE = ['CA', 'C', 'N', 'O']
 _RUN = [0]
+_HEAVY = {}        # run id -> tables before/after and file contents (kept out of the reported outputs: they are large)
 
 
 # ----------------------------------------------------------------------------------------------------------------
@@ -127,7 +128,7 @@ def mk(target, mobile, sel, family, only_backbone=True, method='svd', export=Fal
 def cases(ctx):
     rng = ctx.rng
     out = []
-    n = ctx.scale(6, 60)
+    n = ctx.scale(10, 60)
     for fam in FAMILIES:
         for k in range(n):
             target, mobile = make_pair(rng, fam)
@@ -249,6 +250,11 @@ def impl(ctx, c):
         if c['source'] == 'file':
             out['inputs_intact'] = open(mfile).read() == '\n'.join(c['mobile']) + '\n' and open(tfile).read() == '\n'.join(c['target']) + '\n' \
                 and sorted(os.listdir('in')) == sorted(set(c['names']))
+        heavy = {k: out.pop(k) for k in ('mobile_before', 'target_before', 'mobile_after', 'target_after') if k in out}
+        heavy['files'] = out['files']
+        out['files'] = sorted(out['files'])
+        out['heavy'] = _RUN[0]
+        _HEAVY[_RUN[0]] = heavy
         return out
     finally:
         SP.get_rotation_matrix, SP.get_intersection = orig_rot, orig_int
@@ -283,13 +289,14 @@ def fit_motion(X, Y):
 
 
 def driver_line(c, out):
-    if not isinstance(out, dict) or 'mobile_before' not in out:
+    hv = _HEAVY.get(out.get('heavy'), {}) if isinstance(out, dict) else {}
+    if 'mobile_before' not in hv:
         return {'op': 'superpose', 'mobile': [], 'target': [], 'mobile_after': [], 'target_after': [], 'sel': c['sel'], 'only_backbone': c['only_backbone'],
                 'export': c['export'], 'kernel': {}, 'backbone': BACKBONE, 'fit_R': [rat(v) for v in np.eye(3).flatten()], 'fit_t': ['0/1'] * 3}
-    A, t = fit_motion(xyz_of(out['mobile_before']), xyz_of(out['mobile_after'])) if len(out['mobile_before']) == len(out['mobile_after']) \
+    A, t = fit_motion(xyz_of(hv['mobile_before']), xyz_of(hv['mobile_after'])) if len(hv['mobile_before']) == len(hv['mobile_after']) \
         else (np.eye(3), np.zeros(3))
-    line = {'op': 'superpose', 'mobile': out['mobile_before'], 'target': out['target_before'], 'mobile_after': out['mobile_after'],
-            'target_after': out['target_after'], 'sel': c['sel'], 'only_backbone': c['only_backbone'], 'export': c['export'],
+    line = {'op': 'superpose', 'mobile': hv['mobile_before'], 'target': hv['target_before'], 'mobile_after': hv['mobile_after'],
+            'target_after': hv['target_after'], 'sel': c['sel'], 'only_backbone': c['only_backbone'], 'export': c['export'],
             'kernel': out['kernel'] or {}, 'backbone': BACKBONE,
             'fit_R': [rat(float(v)) for v in A.flatten()], 'fit_t': [rat(float(v)) for v in t]}
     if c['source'] == 'file':
@@ -343,10 +350,11 @@ def agree_model(c, out, model):
         return True if res == out['error'] else f'implementation raised {out["error"]}, model {str(res)[:200]}'
     if isinstance(res, str):
         return f'implementation returned, model {res}'
-    d = rows_close(out['mobile_after'], res['mobile'], Fraction(1, 10 ** 8))
+    hv = _HEAVY[out['heavy']]
+    d = rows_close(hv['mobile_after'], res['mobile'], Fraction(1, 10 ** 8))
     if d:
         return 'mobile after: implementation vs model ' + d
-    if out['target_after'] != res['target']:
+    if hv['target_after'] != res['target']:
         return 'target after: implementation vs model differ'
     info = model['info']
     if info['route'] != out['route']:
@@ -359,14 +367,15 @@ def agree_model(c, out, model):
     if sorted(mf) != sorted(out['files']):
         return f'files: implementation {sorted(out["files"])}, model {sorted(mf)}'
     for fn in mf:
-        v = lines_close(out['files'][fn], mf[fn])
+        v = lines_close(hv['files'][fn], mf[fn])
         if v is not True:
             return v if v == 'discard' else f'content of {fn}: ' + v
     return True
 
 
 def agree_spec(c, out, spec):
-    if 'mobile_before' not in out:
+    hv = _HEAVY.get(out.get('heavy'), {})
+    if 'mobile_before' not in hv:
         return True
     # whatever happened: nothing but the mobile coordinates may have changed, and files only with export
     if not spec['count_same']:
@@ -403,8 +412,8 @@ def agree_spec(c, out, spec):
         tol = 1e-6 if out['route'] == 'positional' else 2e-3
         if got > opt + tol:
             return f'RMSD over the {spec["n_shared"]} shared selected atoms after superposition {got:.6f}, attainable {opt:.6f} (route {out["route"]})'
-        if c['family'] == 'displaced_exact' and spec['n_shared'] >= 3 and len(out['mobile_after']) == len(out['target_after']):
-            dev = np.abs(xyz_of(out['mobile_after']) - xyz_of(out['target_after'])).max()
+        if c['family'] == 'displaced_exact' and spec['n_shared'] >= 3 and len(hv['mobile_after']) == len(hv['target_after']):
+            dev = np.abs(xyz_of(hv['mobile_after']) - xyz_of(hv['target_after'])).max()
             if rank_of(P) >= 2 and dev > 1e-6:
                 return f'exactly displaced copy does not land back: an atom is off by {dev:.3g} A'
     return True
@@ -426,7 +435,7 @@ def nontrivial_key(c, out):
 
 def distribution(recs):
     d = {'families': {}, 'routes': {}, 'selections': {}, 'methods': {}, 'export': {'on': 0, 'off': 0}, 'errors': {}, 'only_backbone': {'on': 0, 'off': 0},
-         'equal_sizes_different_atoms': 0, 'pairs_handed_to_kernel': {'min': None, 'max': None}}
+         'equal_sizes_different_atoms': 0, 'pairs_handed_to_kernel': {'min': None, 'max': None}, 'shared_selected_atoms': {'min': None, 'max': None}}
     ns = []
     for r in recs:
         c, o = r['case'], r['impl']
@@ -442,9 +451,12 @@ def distribution(recs):
                 d['routes'][o.get('route')] = d['routes'].get(o.get('route'), 0) + 1
                 if o.get('n_pairs') is not None:
                     ns.append(o['n_pairs'])
-                m = r.get('model')
-                if o.get('route') == 'intersection' and isinstance(m, dict) and isinstance(r.get('spec'), dict):
-                    pass
     if ns:
         d['pairs_handed_to_kernel'] = {'min': min(ns), 'max': max(ns)}
+    sh = [r['spec']['n_shared'] for r in recs if isinstance(r.get('spec'), dict) and 'n_shared' in r['spec']]
+    if sh:
+        d['shared_selected_atoms'] = {'min': min(sh), 'max': max(sh)}
+    # same number of selected atoms on both sides, yet different atoms (the case size-based pairing gets wrong)
+    d['equal_sizes_different_atoms'] = sum(1 for r in recs if isinstance(r['impl'], dict) and r['impl'].get('route') == 'intersection'
+                                           and isinstance(r.get('model'), dict) and r['case']['family'] in ('window', 'del_both'))
     return d
